@@ -63,8 +63,8 @@ def insert_ignorable(lines, rng, ignore_names):
            ["MASTER        0", "CONECT    1    2"]
 
 
-def insert_hydrogens(lines, rng):
-    """Hydrogens inside their own residue, after one of its heavy atoms."""
+def insert_hydrogens(lines, rng, alts=(" ",)):
+    """Hydrogens inside their own residue, after one of its heavy atoms (alts: alternate-location labels to use)."""
     out = []
     n = 0
     for ln in lines:
@@ -72,7 +72,7 @@ def insert_hydrogens(lines, rng):
         if C.is_atom(ln) and ln[:4] == "ATOM" and rng.random() < 0.15:
             r = pdbio.parse_line(ln)
             n += 1
-            out.append(pdbio.atom_line("ATOM", 8000 + n, "H%d" % (n % 9 + 1), " ", r.resn, r.chain, r.num, r.icode,
+            out.append(pdbio.atom_line("ATOM", 8000 + n, "H%d" % (n % 9 + 1), alts[n % len(alts)], r.resn, r.chain, r.num, r.icode,
                                        r.x + 700, r.y + 500, r.z - 300, elem="H"))
     return out
 
@@ -103,7 +103,10 @@ def with_own_hydrogens(text):
 
 
 def structures(ctx):
+    from . import c08
+    multi = dict(c08.constructed(ctx))
     out = [("1HPX", C.test_pdb_text("1HPX")), ("frag-3SGB-E0+25", C.fragment("3SGB", "E", 0, 25)),
+           ("alt-rotamers-AB", multi["alt-rotamers-AB"]), ("model2-missing-atoms", multi["model2-missing-atoms"]),
            ("3SGB-subset", C.test_pdb_text("3SGB-subset")), ("sample-issue-140", C.test_pdb_text("sample-issue-140"))]
     if ctx.thorough():
         out += [(n, C.test_pdb_text(n)) for n in ("3SGB", "1FTJ-Chain-A", "4DFR", "conf-alt-AB", "conf-model-mutant")]
@@ -134,6 +137,7 @@ def run(ctx):
         edits = [("columns", C.join(rewrite_columns(lines, rng)), []),
                  ("ignorable", C.join(insert_ignorable(lines, rng, ign)), []),
                  ("hydrogens", C.join(insert_hydrogens(lines, rng)), []),
+                 ("hydrogens-own-altloc-labels", C.join(insert_hydrogens(lines, rng, alts=("C", "A", "3", " "))), []),
                  ("all", C.join(insert_hydrogens(insert_ignorable(rewrite_columns(lines, rng), rng, ign), rng)), [])]
         for kind, etext, opts in edits:
             rb = runner.run(etext, ["-q"] + opts)
